@@ -50,6 +50,7 @@ def run_selftest(prop, spec, root, repo, only=None):
     t0 = time.time()
     build_root = os.path.join(root, "build", prop, "mutants")
     kani_by_name = {k["name"]: k for k in spec.get("kani", [])}
+    native_by_name = {k["name"]: k for k in spec.get("native", [])}
     try:
         for p in patches:
             name = os.path.basename(p)[:-6]
@@ -73,6 +74,9 @@ def run_selftest(prop, spec, root, repo, only=None):
                 k["quick"], k["thorough"] = hs[:6], hs[:6]
                 k["no_cex"] = True
                 r = kani_unit.run_unit(k, SCRATCH, root, build_root, "quick")
+            elif unit in native_by_name:
+                import native_unit
+                r = native_unit.run_unit(native_by_name[unit], SCRATCH, root, build_root, "quick")
             else:
                 r = verus_unit.run_unit(os.path.join(root, "units", unit + ".toml"), SCRATCH, root, build_root,
                                         do_twin=False)
